@@ -8,6 +8,7 @@ import StathamModel.Validate
 import StathamModel.Tie
 import StathamModel.Lemmas.AccNames
 import StathamModel.Lemmas.CallVerdict
+import StathamModel.Lemmas.ElemBeq
 namespace Statham.C17
 open Statham
 
@@ -43,6 +44,11 @@ theorem C17_partial_congruence (env : Env) (a b : Elem) (h : anonymize a = anony
   rw [accepts_eq, accepts_eq]
   unfold Elem.accV
   rw [acc_congr_of_anonymize env a b h]
+
+/-- the form the driver evaluates (`Elem.same`: executable structural comparison, proved sound) -/
+theorem C17_congruence_decidable (env : Env) (a b : Elem) (h : Elem.same (anonymize a) (anonymize b) = true) (v : JVal) :
+    a.accepts env v = b.accepts env v :=
+  C17_partial_congruence env a b (Elem.same_sound _ _ h) v
 
 /-- the same for the not-passed marker (defaults are treated alike) -/
 theorem C17_partial_congruence_notPassed (env : Env) (a b : Elem) (h : anonymize a = anonymize b) :
